@@ -262,3 +262,11 @@ func (w *World) FuncsOf(pkg string) []*ssa.Function {
 	}
 	return out
 }
+
+// InRepoPkg reports whether the package belongs to the analysed module.
+func (w *World) InRepoPkg(p *types.Package) bool {
+	if p == nil {
+		return false
+	}
+	return p.Path() == w.ModPath || strings.HasPrefix(p.Path(), w.ModPath+"/")
+}
